@@ -7,6 +7,7 @@ import (
 	"fmt"
 	"go/token"
 	"go/types"
+	"hash/fnv"
 	"strings"
 )
 
@@ -97,8 +98,21 @@ func (e *Engine) strTerms(s StrV) (string, []Term) {
 }
 
 func ufName(prefix, shape string) string {
-	r := strings.NewReplacer("(", "_", ")", "_", ",", "_", "\"", "q", ":", "c", "/", "s", " ", "_", "|", "_")
-	return prefix + "_" + r.Replace(shape)
+	var sb strings.Builder
+	for _, r := range shape {
+		if (r >= 'a' && r <= 'z') || (r >= 'A' && r <= 'Z') || (r >= '0' && r <= '9') {
+			sb.WriteRune(r)
+		} else {
+			sb.WriteByte('_')
+		}
+	}
+	name := sb.String()
+	if len(name) > 60 {
+		name = name[:60]
+	}
+	h := fnv.New32a()
+	h.Write([]byte(shape))
+	return fmt.Sprintf("%s_%s_%08x", prefix, name, h.Sum32())
 }
 
 type hashState struct {
